@@ -67,6 +67,7 @@ CaseResult run_static(const RunCtx &ctx, TapeReader &t, unsigned size_hint) {
     o.eps = Eps;
     o.size_hint = size_hint;
     if ((ctx.prop == "C01" || ctx.prop == "C02") && ctx.mode != "mem") o.max_n = size_t(1) << 23, o.allow_giant = true;
+    if (ctx.prop == "C07") o.max_n = size_t(1) << 22; // upper levels with >= 2^15 segments are themselves built in chunks
     o.xkeys = ctx.x("xkeys");
     o.xthreads = ctx.x("xthreads");
     std::vector<K> keys = gen_keys<K>(t, o, meta);
